@@ -271,7 +271,7 @@ func (e *Enc) enterLoop(fr *Frame, li *loopInfo, pre *State) *State {
 		}
 		head.heaps[n] = e.fresh(n+"_lh", old.S)
 	}
-	if mod.allHeaps && len(e.preserved) > 0 {
+	if mod.allHeaps && len(e.preserved)+len(e.deferredPres) > 0 {
 		// what unbounded-frame calls cannot reach, and the body does not write itself, survives the loop
 		e.applyPreserved(pre, head, direct)
 	}
